@@ -27,7 +27,7 @@ LEVEL = "model_checking"
 
 OP_KINDS = ["CreateOrg", "UpdateOrg", "DeleteOrg", "CreateTeam", "UpdateTeam", "DeleteTeam", "CreateRole", "UpdateRole",
             "DeleteRole", "CreateMP", "DeleteMP", "AddMember", "RemoveMember", "SetTokenPerms", "RevokeToken", "DeleteToken",
-            "ExpireTokenData"]
+            "ExpireTokenData", "ReseedOrg"]
 
 
 def par(jobs):
@@ -57,7 +57,7 @@ def par(jobs):
 def run(ctx):
     quick = ctx.quick()
     mc_cfg = "Rbac_MC_small.cfg" if quick else "Rbac_MC_large.cfg"
-    variants = ["tokenperms", "deleteorg", "authcache", "teamscan"]
+    variants = ["tokenperms", "deleteorg", "authcache", "teamscan", "revoke", "reseed"]
     jobs = [lambda: ctx.tlc("auth", "Auth", mc_cfg, coverage=True, workers=4, timeout=2400),
             lambda: ctx.tlc("auth", "Auth", "Rbac_Gen_small.cfg", workers=4, timeout=1800)]
     for v in variants:
@@ -105,8 +105,10 @@ def run(ctx):
     r = json.load(open(rp))
     if r.get("infra"):
         raise InfraError("authrbac driver: " + r["infra"])
-    if r["replays"] != 2 * len(hs):
-        raise InfraError("driver replayed %d of %d (history, mode) pairs" % (r["replays"], 2 * len(hs)))
+    nres = sum(1 for h in hs if any(o["k"] == "ReseedOrg" for o in h["ops"]))
+    want = 2 * (len(hs) - nres) + nres     # ReseedOrg histories run once, in mixed mode
+    if r["replays"] != want:
+        raise InfraError("driver replayed %d of %d (history, mode) pairs" % (r["replays"], want))
     for k in OP_KINDS:
         if r["op_kinds"].get(k, 0) == 0:
             raise InfraError("vacuous generation: mutator %s never appears in a history" % k)
